@@ -61,6 +61,11 @@ func declareCols(t jsonline.Template, cols []colDesc) jsonline.Template {
 // sampleOf: the raw-type sample a column is declared with. Only its TYPE counts: a []byte column is declared in turn
 // with a slice that has room behind it and with a nil slice; an unsupported raw type ("other") in turn with a struct,
 // and with pointers whose types implement encoding.TextUnmarshaler / fmt.Stringer (a library may look for those).
+var sampleTurn int
+
+// nextSample: sampleOf with a turn of its own.
+func nextSample(ty string) interface{} { sampleTurn++; return sampleOf(ty, sampleTurn) }
+
 func sampleOf(ty string, turn int) interface{} {
 	switch ty {
 	case "bytes":
